@@ -247,10 +247,6 @@ package service
 //@   option trusted
 //@   modifies nothing
 
-//@ func MinerManager.AddStake
-//@   option trusted
-//@   modifies ghost(stver)
-
 //@ func RefundManager.GetRefundStake
 //@   option trusted
 //@   modifies ghost(stver)
@@ -364,3 +360,56 @@ package service
 //@   ensures [validators] result == nil ==> noMatch(common.MinerTypeValidator, seqLen(regSeq(common.MinerTypeValidator)), old(bytes(account)))
 //@   ensures [proposers]  result == nil ==> noMatch(common.MinerTypeProposer, seqLen(regSeq(common.MinerTypeProposer)), old(bytes(account)))
 //@   ensures [reads]      ghost(stver) == old(ghost(stver))
+//@   modifies ghost(itpos), ghost(itseq)
+
+// Stake accounting (C20): mstake[id] is the stake stored for miner id (the registry's storage slots behind
+// GetMinerById/UpdateMiner, trusted); stakeUnits is the token amount of a stake (utility.Float64ToBigInt of the
+// float64 stake: its exactness is C18-style arithmetic that is not decided here). Adding stake debits exactly
+// that amount from the paying account when - and only when - the record's stake grows by delta; a rejected
+// request changes nothing.
+//@ ghost mstake (Array Bytes Int)
+//@ spec abstract fn stakeUnits(d uint64) Int
+
+//@ func ext_float64ToBigInt
+//@   option trusted extern=com.tuntun.rangers/node/src/utility.Float64ToBigInt
+//@   ensures result != nil && fresh(result) && big(result) >= 0
+//@   modifies nothing
+
+//@ func MinerManager.GetMinerById
+//@   option trusted
+//@   ensures result != nil ==> fresh(result) && Z(result.Stake) == @select(ghost(mstake), old(bytes(id))) && bytes(result.Id) == old(bytes(id))
+//@   modifies nothing
+
+//@ func MinerManager.UpdateMiner
+//@   option trusted
+//@   requires miner != nil
+//@   ensures ghost(mstake) == @store(old(ghost(mstake)), bytes(miner.Id), Z(miner.Stake))
+//@   modifies ghost(mstake), ghost(stver)
+
+//@ func MinerManager.AddStake
+//@   property C20
+//@   option intmode=math
+//@   requires mm != nil && mm.logger != nil && accountdb != nil
+//@   requires [wf]     forall a common.Address :: balOf(a) >= 0
+//@   requires [supply] delta < 4611686018427387904 && forall k Bytes :: @select(ghost(mstake), k) >= 0 && @select(ghost(mstake), k) < 4611686018427387904
+//@   ensures [noop]     delta == 0 ==> result0 && ghost(bal) == old(ghost(bal)) && ghost(mstake) == old(ghost(mstake))
+//@   ensures [rejected] !result0 ==> ghost(bal) == old(ghost(bal)) && ghost(mstake) == old(ghost(mstake))
+//@   ensures [stake]    result0 && delta != 0 ==> @select(ghost(mstake), old(bytes(minerId))) == old(@select(ghost(mstake), bytes(minerId))) + delta
+//@   ensures [others]   forall k Bytes :: k != old(bytes(minerId)) ==> @select(ghost(mstake), k) == old(@select(ghost(mstake), k))
+//@   ensures [paid]     result0 && delta != 0 ==> balOf(addr) <= old(balOf(addr)) && balOf(addr) >= 0 && forall a common.Address :: a != addr ==> balOf(a) == old(balOf(a))
+
+// Applying a miner: accepted only for a known type with at least the minimum stake, non-empty keys, a payer that
+// covers the stake, an unused id and an account that controls no other miner (in either registry, whatever the
+// status of that miner); a rejected application changes nothing.
+//@ func MinerManager.AddMiner
+//@   property C20
+//@   option intmode=math
+//@   requires mm != nil && mm.logger != nil && mm.pkCache != nil && accountdb != nil && miner != nil
+//@   requires seqLen(regSeq(common.MinerTypeValidator)) >= 0 && seqLen(regSeq(common.MinerTypeProposer)) >= 0
+//@   requires [wf] forall a common.Address :: balOf(a) >= 0
+//@   ensures [rejected] !result0 ==> ghost(bal) == old(ghost(bal)) && ghost(mstake) == old(ghost(mstake))
+//@   ensures [type]     result0 ==> miner.Type == common.MinerTypeValidator || miner.Type == common.MinerTypeProposer
+//@   ensures [minimum]  result0 ==> (miner.Type == common.MinerTypeValidator ==> miner.Stake >= common.ValidatorStake) && (miner.Type == common.MinerTypeProposer ==> miner.Stake >= common.ProposerStake)
+//@   ensures [oneminer] result0 ==> noMatch(common.MinerTypeValidator, seqLen(regSeq(common.MinerTypeValidator)), old(bytes(miner.Account))) && noMatch(common.MinerTypeProposer, seqLen(regSeq(common.MinerTypeProposer)), old(bytes(miner.Account)))
+//@   ensures [stored]   result0 ==> @select(ghost(mstake), bytes(miner.Id)) == miner.Stake
+//@   ensures [paid]     result0 ==> balOf(addr) <= old(balOf(addr)) && balOf(addr) >= 0 && forall a common.Address :: a != addr ==> balOf(a) == old(balOf(a))
